@@ -53,7 +53,8 @@ def rule_abs(j):
 
 
 def render(cfg, dev):
-    out = {"groups": [{"id": n, "expression": [{"id": "id", "resource_type": "IPAddressExpression",
+    xids = cfg.get("xids") or {}
+    out = {"groups": [{"id": n, "expression": [{"id": xids.get(n, "id"), "resource_type": "IPAddressExpression",
                                                  "ip_addresses": sorted(ms)}]}
                       for n, ms in sorted(cfg["groups"].items())],
            "policies": [{"id": p, "resource_type": "GatewayPolicy",
@@ -115,22 +116,23 @@ def parse_script(text):
             continue
         k = re.match(r"^/infra/domains/default/groups/([^/?]+)(/ip-address-expressions/([^/?]+)(\?action=(add|remove))?)?$", path)
         if k:
-            gid, sub, _, _, act = k.groups()
+            gid, sub, xid, _, act = k.groups()
             e.update(obj=gid, netspoc=gid.startswith("Netspoc"))
             if sub is None:
                 if method == "DELETE":
                     evs.append(dict(e, ev="DeleteGroup", id=gid))
                 elif method == "PUT":
-                    evs.append(dict(e, ev="PutGroup", id=gid, members=sorted(body["expression"][0]["ip_addresses"])))
+                    evs.append(dict(e, ev="PutGroup", id=gid, members=sorted(body["expression"][0]["ip_addresses"]),
+                                    x=body["expression"][0].get("id", "")))
                 else:
                     raise Broken("cmdparse: bad method on group: " + ln)
             elif act:
                 if method != "POST":
                     raise Broken("cmdparse: bad method on group action: " + ln)
-                evs.append(dict(e, ev="GroupAdd" if act == "add" else "GroupRemove", id=gid,
+                evs.append(dict(e, ev="GroupAdd" if act == "add" else "GroupRemove", id=gid, x=xid,
                                 members=sorted(body["ip_addresses"])))
             elif method == "PATCH":
-                evs.append(dict(e, ev="PatchExpr", id=gid, members=sorted(body["ip_addresses"])))
+                evs.append(dict(e, ev="PatchExpr", id=gid, x=xid, members=sorted(body["ip_addresses"])))
             else:
                 raise Broken("cmdparse: bad group url: " + ln)
             continue
@@ -166,10 +168,12 @@ class Replica:
         c = copy.deepcopy(cfg)
         self.pol = c["policies"]
         self.grp = {n: sorted(m) for n, m in c["groups"].items()}
+        self.xid = {n: (c.get("xids") or {}).get(n, "id") for n in self.grp}
         self.svc = c["services"]
 
     def state(self):
-        return {"policies": copy.deepcopy(self.pol), "groups": copy.deepcopy(self.grp), "services": dict(self.svc)}
+        return {"policies": copy.deepcopy(self.pol), "groups": copy.deepcopy(self.grp), "services": dict(self.svc),
+                "xids": dict(self.xid)}
 
     def rules(self):
         return [r for rs in self.pol.values() for r in rs.values()]
@@ -200,6 +204,9 @@ class Replica:
                 del self.svc[e["id"]]
         elif ev == "PutGroup":
             self.grp[e["id"]] = sorted(e["members"])
+            self.xid[e["id"]] = e["x"]
+        elif ev in ("GroupAdd", "GroupRemove", "PatchExpr") and e["id"] in self.grp and self.xid[e["id"]] != e["x"]:
+            return          # the request names an expression the group does not have
         elif ev == "GroupAdd":
             if e["id"] in self.grp:
                 self.grp[e["id"]] = sorted(set(self.grp[e["id"]]) | set(e["members"]))
@@ -213,6 +220,7 @@ class Replica:
         elif ev == "DeleteGroup":
             if e["id"] in self.grp and not self.grp_used(e["id"]):
                 del self.grp[e["id"]]
+                del self.xid[e["id"]]
         elif ev == "PutPolicy":
             if not any(self.dangling(r) for r in e["rules"].values()):
                 self.pol[e["id"]] = copy.deepcopy(e["rules"])
